@@ -433,6 +433,8 @@ struct Prepared {
     /// Kill points: (follow, syscall, when), from the cache-changing calls
     /// of the reference traces (each call and the call after it).
     kill_points: Vec<(bool, String, usize)>,
+    /// The `openat` calls that create or truncate files in the cache.
+    create_points: Vec<(bool, String, usize)>,
     /// What the harness expects the uninterrupted run to consist of.
     ref_steps: String,
     /// The case (without the kill) this was prepared for.
@@ -516,12 +518,17 @@ fn prepare_inner(case: &Case) -> Result<Prepared, String> {
     let parsed2 = parse_trace(&res2.trace, &cache2, false);
     let ref_steps = expected_steps(&base, &base_sizes, &ref_listing, &cache);
     let mut kill_points: BTreeSet<(bool, String, usize)> = BTreeSet::new();
+    let mut create_points: Vec<(bool, String, usize)> = Vec::new();
     for (follow, parsed) in [(true, &parsed), (false, &parsed2)] {
         for (_, syscall, index) in &parsed.cache_calls {
             if !KILL_SYSCALLS.contains(&syscall.as_str()) { continue }
             // `openat` only creates; the state after it is reached at the
-            // entry of the next write of the same thread.
-            if syscall == "openat" { continue }
+            // entry of the next write of the same thread (quick tier); the
+            // thorough tier also kills at the creating `openat` itself.
+            if syscall == "openat" {
+                create_points.push((follow, syscall.clone(), *index));
+                continue
+            }
             kill_points.insert((follow, syscall.clone(), *index));
             kill_points.insert((follow, syscall.clone(), *index + 1));
         }
@@ -532,7 +539,7 @@ fn prepare_inner(case: &Case) -> Result<Prepared, String> {
         lab, builder, base, base_sizes,
         ref_ops: normalise(&parsed.ops), ref_payload, ref_listing,
         ref_counts: parsed.counts, ref_main_counts: parsed2.main_counts,
-        kill_points: kill_points.into_iter().collect(),
+        kill_points: kill_points.into_iter().collect(), create_points,
         ref_steps, key: case_key(case), seen_states: BTreeSet::new(),
         _bench: bench,
     })
@@ -551,7 +558,12 @@ fn expected_steps(
         let old = before.points.iter().find(|p| p.path == point.path);
         let changed = old.map(|o| o.file_sha256 != point.file_sha256).unwrap_or(true);
         if !changed { continue }
-        if point.manifest.is_some() { *counts.entry("replace/point").or_insert(0) += 1 }
+        if point.manifest.is_some() {
+            *counts.entry("replace/point").or_insert(0) += 1;
+            // A point seen for the first time is created (`LastAttempt`
+            // header written in place) before it is updated.
+            if old.is_none() { *counts.entry("rewrite/point").or_insert(0) += 1 }
+        }
         else { *counts.entry("rewrite/point").or_insert(0) += 1 }
     }
     for (path, _) in base_sizes {
@@ -831,13 +843,19 @@ fn generate(ctx: &mut Ctx, prepared: &mut Option<Prepared>) -> Vec<Value> {
         for follow in [false, true] {
             let counts = if follow { &prep.ref_counts } else { &prep.ref_main_counts };
             for syscall in KILL_SYSCALLS {
-                if syscall == "openat" && follow { continue }
+                // (`openat`: see below, only the calls that create files.)
+                if syscall == "openat" { continue }
                 for when in 1..=counts.get(syscall).copied().unwrap_or(0) {
                     let mut case = base.clone();
                     case.kill = Some(Kill { follow, syscall: syscall.into(), when });
                     cases.push(to_json(&case));
                 }
             }
+        }
+        for (follow, syscall, when) in &prep.create_points {
+            let mut case = base.clone();
+            case.kill = Some(Kill { follow: *follow, syscall: syscall.clone(), when: *when });
+            cases.push(to_json(&case));
         }
         // Two more scenarios: the very first run on an empty cache directory
         // (every point file is created), and a run in which nothing changed.
